@@ -2,6 +2,8 @@ import Proofs.DerEnc
 import Proofs.DerOid
 import Proofs.DerBits
 import Proofs.DerTie
+import Proofs.DerTieFn
+import Proofs.DerClasses
 /-!
 # C11 — DER codecs round-trip and accept only the unique canonical encoding
 
@@ -327,8 +329,10 @@ theorem encode_bitstring_error {data : Bytes} {k : Int} {e : PyErr} (hl : data.l
 /-! ## consequences: one accepted encoding per value; everything else is `UnexpectedDER`
 
 For each reader: (i) two inputs accepted with the same value and remainder are equal; (ii) an input that is not
-`encoder output ++ rest` is refused with `UnexpectedDER` (non-minimal lengths, padded / negative integers, padded
-sub-identifiers, non-zero padding bits, truncated bodies, wrong tags, … are all instances). -/
+`encoder output ++ rest` is refused with `UnexpectedDER` (`reject_noncanonical_X`: the contrapositive of
+`decode_canonical_X` + `decode_error_X`, kept for convenience; the five named rejection classes are proved as universally
+quantified theorems further below, `reject_length_*`, `reject_integer_*`, `reject_oid_*`, `reject_bitstring_*`,
+`reject_truncated_body`). -/
 
 theorem unique_length {s₁ s₂ : Bytes} {l k₁ k₂ : Nat} (h₁ : readLength s₁ = .ok (l, k₁)) (h₂ : readLength s₂ = .ok (l, k₂)) :
     k₁ = k₂ ∧ s₁.take k₁ = s₂.take k₂ := by
@@ -462,5 +466,290 @@ theorem reject_noncanonical_bitstring (s : Bytes) (expect : Unused) (hx : expect
       obtain ⟨_, h0, _, e, he, hs⟩ := decode_canonical_bitstring hr
       refine absurd ⟨data, k.toNat, e, rest, ?_, hs⟩ h
       rwa [show ((k.toNat : Nat) : Int) = k by omega]
+
+/-! ## independent specification (ITU-T X.690) — `Proofs/DerSpec.lean`
+
+`X690.IsLengthOctets`, `IsTLV`, `IsIntegerContent`, `IsSubId(s)`, `IsOidContent`, `IsBitStringContent`, `IsDer…` are
+predicates on octet strings written from X.690 §8.1.2, §8.1.3, §8.3, §8.6, §8.7, §8.9, §8.19, §10.1, §11.2.1; they mention
+no encoder and no reader of the model.  Each reader accepts EXACTLY what the specification describes (`spec_X`), so
+"canonical" no longer rests on the encoder half of the code; each encoder's output satisfies the specification
+(`encode_X_meets_spec`); the specification determines the octets (`spec_unique_X` via `unique_X`).
+Deviations of the code from the letter of X.690, both unreachable in practice and explicit in the statements: the
+reserved length octet `0xFF` is accepted (K = 127 instead of 126; `spec_length_x690`: no difference below 256^126) and
+identifier `0xBF` is read as tag 31 (`X690.ctxTagBound`). -/
+
+open X690
+
+theorem spec_length (s : Bytes) (n k : Nat) :
+    readLength s = .ok (n, k) ↔ ∃ lo rest, s = lo ++ rest ∧ k = lo.length ∧ IsLengthOctets 127 lo n :=
+  readLength_iff s n k
+
+/-- for every length below 256^126 the accepted length octets obey X.690 to the letter (at most 126 subsequent octets) -/
+theorem spec_length_x690 {lo : Bytes} {n : Nat} (h : IsLengthOctets 127 lo n) (hn : n < 256 ^ 126) :
+    IsLengthOctets 126 lo n := IsLengthOctets_126_of_lt h hn
+
+theorem spec_integer (s : Bytes) (v : Nat) (rest : Bytes) :
+    removeInteger s = .ok (v, rest) ↔ IsDerInteger s v rest := removeInteger_iff s v rest
+
+theorem spec_octet_string (s body rest : Bytes) :
+    removeOctetString s = .ok (body, rest) ↔ IsDerOctetString s body rest := removeOctetString_iff s body rest
+
+theorem spec_sequence (s body rest : Bytes) :
+    removeSequence s = .ok (body, rest) ↔ IsDerSequence s body rest := removeSequence_iff s body rest
+
+theorem spec_constructed (s : Bytes) (t : Nat) (body rest : Bytes) :
+    removeConstructed s = .ok (t, body, rest) ↔ IsDerConstructed s t body rest := removeConstructed_iff s t body rest
+
+theorem spec_oid (s : Bytes) (arcs : List Nat) (rest : Bytes) :
+    removeObject s = .ok (arcs, rest) ↔ IsDerOid s arcs rest := removeObject_iff s arcs rest
+
+theorem spec_bitstring_none (s data : Bytes) (u : Nat) (rest : Bytes) :
+    removeBitstring s .none = .ok (data, some u, rest) ↔ IsDerBitString s data u rest :=
+  removeBitstring_none_iff s data u rest
+
+theorem spec_bitstring (s data : Bytes) (k : Int) (rest : Bytes) :
+    removeBitstring s (.some k) = .ok (data, none, rest) ↔ 0 ≤ k ∧ IsDerBitString s data k.toNat rest :=
+  removeBitstring_some_iff s data k rest
+
+theorem spec_bitstring_legacy (s b rest : Bytes) :
+    removeBitstring s .legacy = .ok (b, none, rest) ↔ b ≠ [] ∧ IsTLV 127 0x03 s b rest :=
+  removeBitstring_legacy_iff s b rest
+
+theorem spec_number (o : Bytes) (n : Nat) : IsSubId o n ↔ o = encodeNumber n := subId_iff o n
+
+/-- non-vacuity of the specification, independent of the encoders: `02 02 00 80` is the DER INTEGER 128 -/
+example : IsDerInteger [0x02, 0x02, 0x00, 0x80, 0xff] 128 [0xff] :=
+  ⟨[0x00, 0x80], ⟨[0x02], rfl, Or.inl ⟨by decide, rfl⟩⟩, 0x00, [0x80], rfl, by decide, by decide,
+    fun b2 t2 h => by simp only [List.cons.injEq] at h; rw [← h.1]; decide⟩
+
+/-- the encoders produce what the specification describes -/
+theorem encode_length_meets_spec (l : Nat) (h : l < 256 ^ 127) :
+    ∃ e, encodeLengthPy l = .ok e ∧ IsLengthOctets 127 e l :=
+  ⟨encodeLength l, encodeLengthPy_eq l h, encodeLength_spec l h⟩
+
+theorem encode_integer_meets_spec (r : Nat) (hd : (intBody r).length < 256 ^ 127) (rest : Bytes) :
+    ∃ e, encodeIntegerPy (r : Int) = .ok e ∧ IsDerInteger (e ++ rest) r rest := by
+  obtain ⟨e, h1, h2⟩ := decode_encode_integer r hd rest
+  exact ⟨e, h1, (spec_integer _ _ _).mp h2⟩
+
+theorem encode_octet_string_meets_spec (body : Bytes) (hd : body.length < 256 ^ 127) (rest : Bytes) :
+    ∃ e, encodeOctetStringPy body = .ok e ∧ IsDerOctetString (e ++ rest) body rest := by
+  obtain ⟨e, h1, h2⟩ := decode_encode_octet_string body hd rest
+  exact ⟨e, h1, (spec_octet_string _ _ _).mp h2⟩
+
+theorem encode_sequence_meets_spec (pieces : List Bytes) (hd : pieces.flatten.length < 256 ^ 127) (rest : Bytes) :
+    ∃ e, encodeSequencePy pieces = .ok e ∧ IsDerSequence (e ++ rest) pieces.flatten rest := by
+  obtain ⟨e, h1, h2⟩ := decode_encode_sequence pieces hd rest
+  exact ⟨e, h1, (spec_sequence _ _ _).mp h2⟩
+
+theorem encode_constructed_meets_spec (tag : Nat) (body : Bytes) (ht : tag ≤ 0x1f) (hd : body.length < 256 ^ 127)
+    (rest : Bytes) :
+    ∃ e, encodeConstructedPy (tag : Int) body = .ok e ∧ IsDerConstructed (e ++ rest) tag body rest := by
+  obtain ⟨e, h1, h2⟩ := decode_encode_constructed tag body ht hd rest
+  exact ⟨e, h1, (spec_constructed _ _ _ _).mp h2⟩
+
+theorem encode_oid_meets_spec (first second : Nat) (pieces : List Nat) (hd : OidDomain first second)
+    (hl : (oidBody first second pieces).length < 256 ^ 127) (rest : Bytes) :
+    ∃ e, encodeOidPy (first : Int) (second : Int) pieces = .ok e ∧ IsDerOid (e ++ rest) (first :: second :: pieces) rest := by
+  obtain ⟨e, h1, h2⟩ := decode_encode_oid first second pieces hd hl rest
+  exact ⟨e, h1, (spec_oid _ _ _).mp h2⟩
+
+theorem encode_bitstring_meets_spec (data : Bytes) (u : Nat) (hu : u ≤ 7) (hp : bitsPadOK data u = true)
+    (hl : data.length + 1 < 256 ^ 127) (rest : Bytes) :
+    ∃ e, encodeBitstring data (.some (u : Int)) = .ok e ∧ IsDerBitString (e ++ rest) data u rest := by
+  obtain ⟨e, h1, _, h3, _⟩ := decode_encode_bitstring data u hu hp hl rest
+  exact ⟨e, h1, (spec_bitstring_none _ _ _ _).mp h3⟩
+
+/-- the specification determines the octets (one DER encoding per value): shown for INTEGER and OID, the others alike -/
+theorem spec_unique_integer {s₁ s₂ rest : Bytes} {v : Nat} (h₁ : IsDerInteger s₁ v rest) (h₂ : IsDerInteger s₂ v rest) :
+    s₁ = s₂ := unique_integer ((spec_integer _ _ _).mpr h₁) ((spec_integer _ _ _).mpr h₂)
+
+theorem spec_unique_oid {s₁ s₂ rest : Bytes} {arcs : List Nat} (h₁ : IsDerOid s₁ arcs rest) (h₂ : IsDerOid s₂ arcs rest) :
+    s₁ = s₂ := unique_oid ((spec_oid _ _ _).mpr h₁) ((spec_oid _ _ _).mpr h₂)
+
+/-! ## the rejection classes named by the property, as universally quantified theorems (`Proofs/DerClasses.lean`) -/
+
+/-- non-minimal length: long form `81 xx` although the length is below 128 -/
+theorem reject_length_long_below_128 (b : UInt8) (rest : Bytes) (hb : b < 0x80) :
+    readLength (0x81 :: b :: rest) = .error .unexpectedDER := readLength_long_below_128 b rest hb
+
+/-- non-minimal length: a leading zero length octet, for any number of length octets -/
+theorem reject_length_leading_zero (first : UInt8) (rest : Bytes) (h : first &&& 0x80 ≠ 0) :
+    readLength (first :: 0 :: rest) = .error .unexpectedDER := readLength_leading_zero first rest h
+
+/-- the indefinite form -/
+theorem reject_length_indefinite (rest : Bytes) : readLength (0x80 :: rest) = .error .unexpectedDER :=
+  readLength_indefinite rest
+
+/-- fewer length octets present than announced -/
+theorem reject_length_truncated (first : UInt8) (rest : Bytes) (h : first &&& 0x80 ≠ 0)
+    (ht : rest.length < (first &&& 0x7f).toNat) : readLength (first :: rest) = .error .unexpectedDER :=
+  readLength_truncated first rest h ht
+
+/-- truncated bodies: whenever the declared length exceeds the bytes present, all six TLV readers (BIT STRING in every
+convention) refuse — the clause finding F6 was about -/
+theorem reject_truncated_body (t : UInt8) (s' : Bytes) (l k : Nat) (hr : readLength ((t :: s').drop 1) = .ok (l, k))
+    (hlong : 1 + k + l > (t :: s').length) (expect : Unused) :
+    removeInteger (t :: s') = .error .unexpectedDER ∧ removeOctetString (t :: s') = .error .unexpectedDER
+    ∧ removeSequence (t :: s') = .error .unexpectedDER ∧ removeConstructed (t :: s') = .error .unexpectedDER
+    ∧ removeObject (t :: s') = .error .unexpectedDER ∧ removeBitstring (t :: s') expect = .error .unexpectedDER :=
+  truncated_body t s' l k hr hlong expect
+
+/-- "the declared length never exceeds the bytes present": an accepted input has a parsable length field `(l, k)` with
+`1 + k + l ≤ len(input)`, the value is made from the `l` bytes after the header, the remainder is what follows them -/
+theorem declared_length_le_present_octet_string {s body rest : Bytes} (h : removeOctetString s = .ok (body, rest)) :
+    ∃ l k, readLength (s.drop 1) = .ok (l, k) ∧ 1 + k + l ≤ s.length ∧ l = body.length
+      ∧ body = (s.drop (1 + k)).take l ∧ rest = s.drop (1 + k + l) := by
+  obtain ⟨hs, hl⟩ := removeOctetString_ok h
+  exact tlv_present (by simpa [encodeOctetString] using hs) hl
+
+theorem declared_length_le_present_sequence {s body rest : Bytes} (h : removeSequence s = .ok (body, rest)) :
+    ∃ l k, readLength (s.drop 1) = .ok (l, k) ∧ 1 + k + l ≤ s.length ∧ l = body.length
+      ∧ body = (s.drop (1 + k)).take l ∧ rest = s.drop (1 + k + l) := by
+  obtain ⟨hs, hl⟩ := removeSequence_ok h
+  exact tlv_present (by simpa [encodeSequence] using hs) hl
+
+theorem declared_length_le_present_constructed {s body rest : Bytes} {tag : Nat}
+    (h : removeConstructed s = .ok (tag, body, rest)) :
+    ∃ l k, readLength (s.drop 1) = .ok (l, k) ∧ 1 + k + l ≤ s.length ∧ l = body.length
+      ∧ body = (s.drop (1 + k)).take l ∧ rest = s.drop (1 + k + l) := by
+  obtain ⟨hs, _, hl⟩ := removeConstructed_ok h
+  exact tlv_present (tag := UInt8.ofNat (0xA0 + tag)) (by simpa [encodeConstructed] using hs) hl
+
+theorem declared_length_le_present_integer {s rest : Bytes} {v : Nat} (h : removeInteger s = .ok (v, rest)) :
+    ∃ l k, readLength (s.drop 1) = .ok (l, k) ∧ 1 + k + l ≤ s.length
+      ∧ v = beVal ((s.drop (1 + k)).take l) ∧ rest = s.drop (1 + k + l) := by
+  obtain ⟨hs, hl⟩ := removeInteger_ok h
+  obtain ⟨l, k, h1, h2, _, h4, h5⟩ := tlv_present (tag := 0x02) (body := intBody v) (by simpa [encodeInteger] using hs) hl
+  exact ⟨l, k, h1, h2, by rw [← h4, (intBody_ok v).2], h5⟩
+
+theorem declared_length_le_present_oid {s rest : Bytes} {arcs : List Nat} (h : removeObject s = .ok (arcs, rest)) :
+    ∃ l k, readLength (s.drop 1) = .ok (l, k) ∧ 1 + k + l ≤ s.length ∧ rest = s.drop (1 + k + l) := by
+  obtain ⟨x, y, ps, _, _, hl, hs⟩ := removeObject_ok h
+  obtain ⟨l, k, h1, h2, _, _, h5⟩ := tlv_present (tag := 0x06) (body := oidBody x y ps) (by simpa using hs) hl
+  exact ⟨l, k, h1, h2, h5⟩
+
+theorem declared_length_le_present_bitstring {s b rest : Bytes} {o : Option Nat} {expect : Unused}
+    (h : removeBitstring s expect = .ok (b, o, rest)) :
+    ∃ l k, readLength (s.drop 1) = .ok (l, k) ∧ 1 + k + l ≤ s.length ∧ rest = s.drop (1 + k + l) := by
+  cases expect with
+  | legacy =>
+    obtain ⟨_, _, hl, hs⟩ := removeBitstring_legacy_ok h
+    obtain ⟨l, k, h1, h2, _, _, h5⟩ := tlv_present (tag := 0x03) (by simpa [encodeBitsRaw] using hs) hl
+    exact ⟨l, k, h1, h2, h5⟩
+  | none =>
+    obtain ⟨u, _, _, _, hl, hs⟩ := removeBitstring_none_ok h
+    rw [encodeBits_eq_raw] at hs
+    obtain ⟨l, k, h1, h2, _, _, h5⟩ := tlv_present (tag := 0x03) (body := UInt8.ofNat u :: b)
+      (by simpa [encodeBitsRaw] using hs) (by simpa using hl)
+    exact ⟨l, k, h1, h2, h5⟩
+  | some kk =>
+    obtain ⟨_, _, _, _, hl, hs⟩ := removeBitstring_some_ok h
+    rw [encodeBits_eq_raw] at hs
+    obtain ⟨l, k, h1, h2, _, _, h5⟩ := tlv_present (tag := 0x03) (body := UInt8.ofNat kk.toNat :: b)
+      (by simpa [encodeBitsRaw] using hs) (by simpa using hl)
+    exact ⟨l, k, h1, h2, h5⟩
+
+/-- negative INTEGER (bit 8 of the first content octet), whatever the length octets -/
+theorem reject_integer_negative {s rest : Bytes} {b : UInt8} {t : Bytes} (h : IsTLV 127 0x02 s (b :: t) rest)
+    (hb : ¬ b < 0x80) : removeInteger s = .error .unexpectedDER := removeInteger_negative h hb
+
+/-- non-minimal INTEGER: a `00` octet in front of an octet below `0x80` -/
+theorem reject_integer_padded {s rest : Bytes} {b : UInt8} {t : Bytes} (h : IsTLV 127 0x02 s (0 :: b :: t) rest)
+    (hb : b < 0x80) : removeInteger s = .error .unexpectedDER := removeInteger_padded h hb
+
+theorem reject_integer_empty {s rest : Bytes} (h : IsTLV 127 0x02 s [] rest) :
+    removeInteger s = .error .unexpectedDER := removeInteger_empty_body h
+
+/-- padded sub-identifier -/
+theorem reject_number_padded (rest : Bytes) : readNumber (0x80 :: rest) = .error .unexpectedDER := readNumber_padded rest
+
+/-- unterminated sub-identifier -/
+theorem reject_number_unterminated (s : Bytes) (h : ∀ d ∈ s, d &&& 0x80 ≠ 0) :
+    readNumber s = .error .unexpectedDER := readNumber_unterminated s h
+
+/-- an OBJECT IDENTIFIER with a padded sub-identifier after any well-formed ones (`IsSubIds` is the specification's) -/
+theorem reject_oid_padded_subid {s rest pre : Bytes} (ns : List Nat) (t : Bytes) (hpre : IsSubIds pre ns)
+    (h : IsTLV 127 0x06 s (pre ++ 0x80 :: t) rest) : removeObject s = .error .unexpectedDER :=
+  removeObject_padded_subid_spec ns t hpre h
+
+theorem reject_oid_empty {s rest : Bytes} (h : IsTLV 127 0x06 s [] rest) :
+    removeObject s = .error .unexpectedDER := removeObject_empty_body h
+
+/-- non-zero BIT STRING padding (`None` and integer conventions) -/
+theorem reject_bitstring_nonzero_padding {s rest data : Bytes} {u last : UInt8} (expect : Unused) (hx : expect ≠ .legacy)
+    (h : IsTLV 127 0x03 s (u :: data) rest) (hl : data.getLast? = some last) (hp : last.toNat % 2 ^ u.toNat ≠ 0) :
+    removeBitstring s expect = .error .unexpectedDER := removeBitstring_nonzero_padding expect hx h hl hp
+
+theorem reject_bitstring_unused_gt_7 {s rest data : Bytes} {u : UInt8} (expect : Unused) (hx : expect ≠ .legacy)
+    (h : IsTLV 127 0x03 s (u :: data) rest) (hu : 7 < u.toNat) : removeBitstring s expect = .error .unexpectedDER :=
+  removeBitstring_unused_gt_7 expect hx h hu
+
+theorem reject_bitstring_unused_in_empty {s rest : Bytes} {u : UInt8} (expect : Unused) (hx : expect ≠ .legacy)
+    (h : IsTLV 127 0x03 s [u] rest) (hu : u.toNat ≠ 0) : removeBitstring s expect = .error .unexpectedDER :=
+  removeBitstring_unused_in_empty expect hx h hu
+
+theorem reject_bitstring_unexpected_unused {s rest data : Bytes} {u : UInt8} (k : Int)
+    (h : IsTLV 127 0x03 s (u :: data) rest) (hk : k ≠ (u.toNat : Int)) :
+    removeBitstring s (.some k) = .error .unexpectedDER := removeBitstring_unexpected_unused k h hk
+
+theorem reject_bitstring_empty {s rest : Bytes} (expect : Unused) (h : IsTLV 127 0x03 s [] rest) :
+    removeBitstring s expect = .error .unexpectedDER := removeBitstring_empty_body expect h
+
+/-! ## remaining items of the review -/
+
+theorem unique_bitstring_legacy {s₁ s₂ b rest : Bytes} {o₁ o₂ : Option Nat}
+    (h₁ : removeBitstring s₁ .legacy = .ok (b, o₁, rest)) (h₂ : removeBitstring s₂ .legacy = .ok (b, o₂, rest)) :
+    s₁ = s₂ := by
+  obtain ⟨_, _, e₁, he₁, rfl⟩ := decode_canonical_bitstring_legacy h₁
+  obtain ⟨_, _, e₂, he₂, rfl⟩ := decode_canonical_bitstring_legacy h₂
+  rw [he₁] at he₂; cases he₂; rfl
+
+theorem reject_noncanonical_bitstring_legacy (s : Bytes)
+    (h : ¬ ∃ (b e rest : Bytes), b ≠ [] ∧ encodeBitstring b .legacy = .ok e ∧ s = e ++ rest) :
+    removeBitstring s .legacy = .error .unexpectedDER := by
+  cases hr : removeBitstring s .legacy with
+  | error e => rw [decode_error_bitstring hr]
+  | ok v =>
+    obtain ⟨b, o, rest⟩ := v
+    obtain ⟨_, hb, e, he, hs⟩ := decode_canonical_bitstring_legacy hr
+    exact absurd ⟨b, e, rest, hb, he, hs⟩ h
+
+/-- `encode_bitstring(s)` / `encode_bitstring(s, None)` with the unused-bits octet supplied by the caller (`s = u :: data`)
+is read back by the `None` and the integer conventions -/
+theorem decode_encode_bitstring_raw (data : Bytes) (u : Nat) (hu : u ≤ 7) (hp : bitsPadOK data u = true)
+    (hl : data.length + 1 < 256 ^ 127) (rest : Bytes) :
+    ∃ e, encodeBitstring (UInt8.ofNat u :: data) .legacy = .ok e ∧ encodeBitstring (UInt8.ofNat u :: data) .none = .ok e
+      ∧ removeBitstring (e ++ rest) .none = .ok (data, some u, rest)
+      ∧ removeBitstring (e ++ rest) (.some (u : Int)) = .ok (data, none, rest) := by
+  have hl' : (UInt8.ofNat u :: data).length < 256 ^ 127 := by simpa using hl
+  refine ⟨encodeBitsRaw (UInt8.ofNat u :: data), encodeBitstring_legacy_eq _ hl', encodeBitstring_legacy_eq _ hl', ?_, ?_⟩
+  · rw [← encodeBits_eq_raw]; exact removeBitstring_none_encode data rest u hu hp hl
+  · rw [← encodeBits_eq_raw]; exact removeBitstring_some_encode data rest u hu hp hl
+
+/-- `encode_sequence(*pieces)` only depends on the concatenation of the pieces -/
+theorem encode_sequence_flatten (pieces : List Bytes) :
+    encodeSequencePy pieces = encodeSequencePy [pieces.flatten] := by
+  unfold encodeSequencePy
+  have h1 : ([pieces.flatten].map List.length).sum = (pieces.map List.length).sum := by
+    rw [Der.sum_length_flatten pieces]
+    simp only [List.map_cons, List.map_nil, List.sum_cons, List.sum_nil, Nat.add_zero]
+  have h2 : [pieces.flatten].flatten = pieces.flatten := by
+    simp only [List.flatten_cons, List.flatten_nil, List.append_nil]
+  rw [h1, h2]
+
+/-- `encode_oid` outside the domain of its `assert`, for all integers -/
+theorem encode_oid_out_of_domain (first second : Int) (pieces : List Nat)
+    (h : ¬ ((0 ≤ first ∧ first < 2 ∧ 0 ≤ second ∧ second ≤ 39) ∨ (first = 2 ∧ 0 ≤ second))) :
+    encodeOidPy first second pieces = .error .assertionError := encodeOidPy_out_of_domain first second pieces h
+
+/-- `encode_constructed` with a tag outside 0…31: `struct.error` outside −160…95, otherwise bytes that
+`remove_constructed` refuses (no silent round trip with another tag) -/
+theorem encode_constructed_out_of_domain (tag : Int) (v : Bytes) (hl : v.length < 256 ^ 127)
+    (h : ¬ (0 ≤ tag ∧ tag ≤ 31)) :
+    (¬ (-160 ≤ tag ∧ tag ≤ 95) ∧ encodeConstructedPy tag v = .error .other)
+    ∨ ((-160 ≤ tag ∧ tag ≤ 95) ∧ ∃ e, encodeConstructedPy tag v = .ok e
+        ∧ ∀ rest, removeConstructed (e ++ rest) = .error .unexpectedDER) :=
+  encodeConstructedPy_out_of_domain tag v hl h
 
 end C11
